@@ -534,6 +534,15 @@ type Contract struct {
 	SpawnEns  []*Clause
 	LoopStep  map[int][]*Clause
 	Variant   string
+	Records   []Record
+}
+
+// Record: definitional ghost instrumentation — at every call of the function the ghost NAME is set to EXPR
+// (evaluated in the post-state, old() = pre-state).  Not checked against the body: the ghost has no other writer.
+type Record struct {
+	Ghost string
+	E     Expr
+	Src   string
 }
 
 type ExpectCall struct {
@@ -568,7 +577,7 @@ type SpecFile struct {
 var topKeywords = map[string]bool{"ghost": true, "ufunc": true, "pred": true, "sfunc": true, "axiom": true, "lemma": true, "fn": true}
 var clauseKeywords = map[string]bool{"props": true, "requires": true, "ensures": true, "modifies": true, "loop": true, "safety": true,
 	"trusted": true, "pure": true, "noeffect": true, "nullable": true, "interference": true, "expect": true, "assert": true, "inline": true,
-	"freshresult": true, "nonnilresult": true, "uses": true, "spawn": true}
+	"freshresult": true, "nonnilresult": true, "uses": true, "spawn": true, "records": true}
 
 // extractSpecLines pulls the //@ lines out of a Go source text.
 type specLine struct {
@@ -940,6 +949,16 @@ func parseSpecText(src, pkg, file string, assumed bool) (*SpecFile, error) {
 				default:
 					return nil, errf(s.line, "loop clause must be invariant, step or modifies")
 				}
+			case "records":
+				i := strings.Index(s.rest, "=")
+				if i < 0 {
+					return nil, errf(s.line, "records NAME = EXPR")
+				}
+				e, err := parseExpr(s.rest[i+1:])
+				if err != nil {
+					return nil, errf(s.line, "%v", err)
+				}
+				cur.Records = append(cur.Records, Record{Ghost: strings.TrimSpace(s.rest[:i]), E: e, Src: s.rest})
 			case "spawn":
 				what, rest := firstWord(s.rest)
 				switch what {
